@@ -169,6 +169,36 @@ def check(ctx: Ctx) -> list[RuleResult]:
             r3.fail(f"{gs.short}:get_fragment-without-version", gs.loc(fn.ast), "a path reaches the first fragment request without the change counter having been read with I/O: the schedule could be stamped with a stale version")
         else:
             r3.ok({"site": norm(fn.ast)[:70], "guard": "did_io or _schedule_version(force_io=True)"})
+    # _is_dated(force_io=True) may only answer "not dated" (so the cached schedule is served) after the change counter was read
+    # with I/O: decision table of _is_dated (predeval.py), rows with force_io True and is_dated False
+    from ..predeval import PredEval, Unsupported
+
+    isd = repo.func("ramses_rf.system.schedule.Schedule._is_dated")
+    r3.instances += 1
+    r3.nontrivial += 1
+    try:
+        tab = PredEval(ctx, isd).table()
+    except Unsupported as err:
+        raise AnalysisError(f"Schedule._is_dated is not a decision procedure the evaluator understands: {err}") from err
+    if "force_io" not in tab.atoms and "force_io" not in tab.subjects:
+        raise AnalysisError("Schedule._is_dated: force_io is no longer tested")
+    bad = []
+    n_forced = 0
+    for a, r in tab.rows:
+        if not a.get("force_io") or not (isinstance(r, tuple) and len(r) == 2):
+            continue
+        n_forced += 1
+        is_dated, did_io = r
+        forced = any("_schedule_version" in e and "force_io" in e for e in a["__effects__"])
+        if is_dated is False and not (did_io is True or forced):
+            bad.append(a)
+    if n_forced == 0:
+        raise AnalysisError("Schedule._is_dated: no (is_dated, did_io) result under force_io")
+    if bad:
+        a = bad[0]
+        r3.fail(f"{isd.short}:not-dated-without-io", isd.loc(), "with force_io=True, _is_dated() can answer 'not dated' from the cached change counter, without any RQ|0006: a schedule changed at the controller since the last read is not noticed and the cached schedule is served", [tab.describe({k: v for k, v in a.items() if k != "__effects__"})[:300], f"calls made: {list(a['__effects__'])}"])
+    else:
+        r3.ok({"_is_dated(force_io=True)": "every 'not dated' answer follows an I/O read of the change counter", "rows": n_forced})
     out.append(r3)
 
     # ---- R4 ---------------------------------------------------------------------------
